@@ -115,3 +115,16 @@ package stanza
 //@ nopanic [C19] (Delay).TokenReader
 //@ nopanic [C19] (Delay).WriteXML
 // END enrolment C19
+
+// C13: the <error/> wrapper visits every language of the text map and every
+// sorted language (no early exit), skips only empty texts, and gives every
+// <text/> element its own xml:lang (none for the empty language).
+//@ func (Error).Wrap
+//@   loop 1
+//@     exhaustive[C13]
+//@   loop 2
+//@     exhaustive[C13]
+//@   callsite mellium.im/xmlstream.Wrap#1
+//@     assert[C13] data != "" && arg1.Name.Local == "text" && arg1.Name.Space == NSError
+//@     assert[C13] lang == "" ==> len(arg1.Attr) == 0
+//@     assert[C13] lang != "" ==> len(arg1.Attr) == 1 && arg1.Attr[0].Value == lang && arg1.Attr[0].Name.Local == "lang" && arg1.Attr[0].Name.Space == "http://www.w3.org/XML/1998/namespace"
